@@ -668,6 +668,38 @@ fn fully_written_body(npend: usize, nsub: usize, op: ClientOperation, is_qos_pub
     std::mem::forget(st);
 }
 
+// @gv props=C18,C09 tier=quick required=yes fns=ProtocolState::on_current_operation_fully_written,ProtocolState::start_operation_ack_timeout
+// @gv bounds="a QoS1 publish / SUBSCRIBE (symbolic) with a symbolic ack timeout (whole seconds < 2^32) becomes fully written at a symbolic time: exactly then the ack timer is armed, for that time + T; nothing is armed before"
+// @gv timeout=900
+#[kani::proof]
+#[kani::unwind(5)]
+#[kani::stub(std::fmt::format, stub_format)]
+fn c18_armed_when_fully_written() {
+    let mut st = mk_state(ProtocolStateType::Connected);
+    let t = Duration::from_secs(kani::any::<u32>() as u64);
+    let pid: u16 = kani::any();
+    kani::assume(pid != 0);
+    let op = if kani::any() {
+        let mut o = mk_publish_op(1, Some(pid), QualityOfService::AtLeastOnce, false);
+        if let Some(ClientOperationOptions::Publish(x)) = &mut o.options { x.options.ack_timeout = Some(t); }
+        o
+    } else {
+        let mut o = mk_subscribe_op(1, Some(pid));
+        if let Some(ClientOperationOptions::Subscribe(x)) = &mut o.options { x.options.ack_timeout = Some(t); }
+        o
+    };
+    st.operations.insert(1, op);
+    st.current_operation = Some(1);
+    // time spent queued or being encoded does not count: nothing is armed yet
+    assert!(st.operation_ack_timeouts.is_empty());
+    let now = at(kani::any::<u32>() as u64);
+    st.on_current_operation_fully_written(now);
+    assert!(st.operation_ack_timeouts.len() == 1, "gv: the ack timeout is armed when the packet has been completely written");
+    let rec = st.operation_ack_timeouts.peek().unwrap().0;
+    assert!(rec.id == 1 && rec.timeout == now + t, "gv: the ack deadline is T after the packet was completely written");
+    std::mem::forget(st);
+}
+
 fn written_publish_body(npend: usize, nsub: usize) {
     let q = any_qos();
     let pid: u16 = kani::any();
